@@ -52,4 +52,36 @@ def reviewed : List String := [
   "parser.Parser.parseAlterCommand | default"
 ]
 
+/-- Functions whose result is a POINTER to an ast struct and that contain a literal `return nil` (one entry per such
+return, in source order), whatever its class. A nil pointer is harmless as long as every caller tests it before storing
+it in an interface-typed slot; the callers of exactly these functions were read for that (and the search of C03 finds no
+typed nil on any accepted input). A `return nil` appearing in another pointer-returning function — e.g. an
+error-recovery exit added to `parseFunctionCall`, whose callers assign the result to `ast.Expression` unchecked — changes
+this list and breaks `DC.Props.C03Sites.pointer_nil_returns_reviewed`. -/
+def pointerNil : List String := [
+  "parser.Parser.parseSelectWithUnionWithParsedWith",
+  "parser.Parser.parseSelectWithUnion",
+  "parser.Parser.parseSelectWithUnion",
+  "parser.Parser.parseSelectInternal",
+  "parser.Parser.parseSelectInternal",
+  "parser.Parser.parseSelectInternal",
+  "parser.Parser.parseSelectInternal",
+  "parser.Parser.parseTablesInSelect",
+  "parser.Parser.parseTableElementWithJoin",
+  "parser.Parser.parseInsert",
+  "parser.Parser.parseDictionaryAttribute",
+  "parser.Parser.parseColumnDeclaration",
+  "parser.Parser.parseDataType",
+  "parser.Parser.parseCodecExpr",
+  "parser.Parser.parseAlter",
+  "parser.Parser.parseAlterCommand",
+  "parser.Parser.parseAlterCommand",
+  "parser.Parser.parseOptimize",
+  "parser.Parser.parseRename",
+  "parser.Parser.parseExchange",
+  "parser.Parser.parseExchange",
+  "parser.Parser.parseArrayJoin",
+  "parser.Parser.parseArrayJoin",
+  "parser.Parser.parseFromSelectSyntax"]
+
 end DC.Spec.AssumedNilReturns
